@@ -47,7 +47,7 @@ def gen_program(rng, nmax, lmax):
             break
     n_c = int(rng.integers(0, 4))
     L = int(rng.integers(0, lmax + 1)) if rng.random() < 0.9 else 0
-    return programs.random_program(rng, n_e, n_p, n_c, L)
+    return programs.random_program(rng, n_e, n_p, n_c, L, grow_registers=(n_e + n_p <= nmax - 1))
 
 
 def run_shard(spec, ctx):
